@@ -94,6 +94,7 @@ fn c12_check(c: &ProbeCase, st: &mut Stats) -> CheckResult {
             let mut c2 = c.clone();
             match &mut c2 {
                 ProbeCase::Ops { import, .. } | ProbeCase::Adf { import, .. } => *import = Some(exports[from].clone()),
+                ProbeCase::Deep { .. } => {}
             }
             let js2 = serde_json::to_string(&c2).map_err(|e| e.to_string())?;
             let r = run_probe(set, &js2)?;
@@ -132,6 +133,10 @@ fn c12_check(c: &ProbeCase, st: &mut Stats) -> CheckResult {
         ProbeCase::Adf { calls, .. } => {
             st.label("adf");
             calls.len() >= 2
+        }
+        ProbeCase::Deep { vars, .. } => {
+            st.label(if *vars > 64 { "deep:more than 64 variables (saturating counts)" } else { "deep:up to 64 variables" });
+            true
         }
     };
     if nt {
@@ -219,7 +224,9 @@ fn probe_case() -> BoxedStrategy<ProbeCase> {
                 exchange,
             }
         });
-    prop_oneof![ops, adf].boxed()
+    let deep = (20u8..=100, proptest::collection::vec((0u8..3, any::<bool>(), proptest::bool::weighted(0.15)), 16..40), any::<bool>(), proptest::bool::weighted(0.3))
+        .prop_map(|(vars, spec, memo_first, reimport)| ProbeCase::Deep { vars, spec, memo_first, reimport });
+    prop_oneof![10 => ops, 10 => adf, 1 => deep].boxed()
 }
 
 pub fn c12(tier: Tier) -> PropSpec {
@@ -232,7 +239,7 @@ pub fn c12(tier: Tier) -> PropSpec {
                model / definitional oracle (C06, C07, C13, C01-C05 style; max_depth is queried FIRST on a store without memoised counts; \
                memoised model counts are checked wherever documented to work, i.e. in all builds but adhoccounting-without- \
                adhoccountmodels) and emits a canonical handle-free transcript (truth tables, T/F/u answers in order, counts, depth, \
-               supports, cubes); every transcript must equal the default build's. Non-trivial: op sequence with a restrict and a diagram \
+               supports, cubes); every transcript must equal the default build's. One case in 21 is a deep diagram (literal chain over 20..100 variables under a selector, optionally exported and re-imported): naive and - where documented - memoised model counts, both path counts, depth and dependencies against an own depth-based count in u128, clamped to the machine word where the library saturates. Non-trivial: op sequence with a restrict and a diagram \
                of depth >= 3 with >= 4 paths, or ADF history with >= 2 calls.",
         assumptions: vec![
             "the binary crates' own feature matrices are not multiplied in",
